@@ -244,3 +244,8 @@ def run(ctx):
                 raised = True
             ctx.case(key=('pivot', k, stab), nontrivial=True)
             ctx.check(raised, 'orthogonalize:reject', 'orthogonalize(k=%d) must raise ValueError' % k)
+
+
+def selftest(ctx):
+    from . import selftest as ST
+    return ST.orth(ctx)
